@@ -112,6 +112,31 @@ impl Prop for DayFields {
                 }
             }
         }
+        // the same fields asked for neighbouring days first, on the same thread: the answer for a
+        // day must not depend on what was asked before it (caches, memo tables, reused buffers)
+        let deltas: [i64; 8] = [1, -1, 6, -6, 7, -7, 13, -13];
+        for k in 0..2 {
+            let delta = deltas[((day as u64 ^ (day as u64 >> 7)).wrapping_add(k * 3) % 8) as usize];
+            let other = day + delta;
+            if !(cal::MIN_DAY..=cal::MAX_DAY).contains(&other) {
+                continue;
+            }
+            let r = catch(|| (mk_date(other).format(PATTERN), mk_date(day).format(PATTERN), mk_date(other).format(PATTERN)));
+            let (fo, fd, fo2) = match r {
+                Ok(v) => v,
+                Err(p) => return fail("c02.panic", "format returns", p.short()),
+            };
+            for (dd, f) in [(other, &fo), (day, &fd), (other, &fo2)] {
+                let want = expected_fields(dd).join("|");
+                if *f != want {
+                    return fail(
+                        &format!("c02.depends_on_previous_call{}", sig_era),
+                        format!("format(\"{}\") of {} asked in the sequence {} , {} , {} = {:?}", PATTERN, fmt_day(dd), fmt_day(other), fmt_day(day), fmt_day(other), want),
+                        format!("{:?}", f),
+                    );
+                }
+            }
+        }
         Verdict::Pass
     }
 }
